@@ -150,3 +150,55 @@ End C11_oracle.
 Print Assumptions C11_oracle_chunks_sound.
 Print Assumptions C11_oracle_samples_sound.
 Print Assumptions C11_oracle_perchunk_sound.
+
+(* ------------------------------------------------------------------ a refused SetMetadata changes nothing *)
+(* harness/c11.go issues SetMetadata(map[string]string{...}); readDocument refuses
+   it and every SetMetadata of the library returns that error before assigning
+   anything.  ocaml/c11_run.ml treats the call as "error, no effect".  The model's
+   [op] has no such operation; Model/MetaBad.v adds it as a step of its own,
+   [step_setmeta_bad s = (s, None)] (response type [option obs]: None = the
+   refusal, so [obs] gets no new constructor), and [run_bad] folds [step] /
+   [step_setmeta_bad] over histories [list (op + unit)].  What the driver relies
+   on, checked against [run] (proofs: Proofs/MetaBadProofs.v): *)
+From FV.Model Require Import MetaBad.
+From FV.Proofs Require Import MetaBadProofs.
+
+Section C11_refused.
+Variable deflate : bytes -> bytes.
+
+(* for every state [st] (any kind, any writer) and all histories h1, h2: in
+   h1 ++ [refused SetMetadata] ++ h2 the operations of h1 and of h2 answer exactly
+   as in h1 ++ h2, the refused call answers with the refusal, and the final state
+   (collector — with its metadata slot — and writer, i.e. every record emitted
+   by a later Add / flush) is that of h1 ++ h2.  In particular the metadata in
+   later Resolve results and writer records is what was set before. *)
+Theorem C11_refused_setmetadata_keeps_slot : forall st h1 h2,
+  let s1 := fst (run deflate st h1) in
+  run_bad deflate st (map inl h1 ++ inr tt :: map inl h2) =
+    (fst (run deflate s1 h2), map Some (snd (run deflate st h1)) ++ None :: map Some (snd (run deflate s1 h2))) /\
+  run deflate st (h1 ++ h2) = (fst (run deflate s1 h2), snd (run deflate st h1) ++ snd (run deflate s1 h2)).
+Proof. exact (refused_setmeta_keeps deflate). Qed.
+
+(* any number of refused calls at any positions: final state and the answers of
+   the other operations are those of the history without the refused calls
+   ([goods]), and exactly the refused calls are answered with the refusal *)
+Theorem C11_refused_setmetadata_any : forall h st,
+  fst (run_bad deflate st h) = fst (run deflate st (goods h)) /\
+  answered (snd (run_bad deflate st h)) = snd (run deflate st (goods h)) /\
+  refusals (snd (run_bad deflate st h)) = refused_at h.
+Proof. exact (run_bad_goods deflate). Qed.
+
+End C11_refused.
+Print Assumptions C11_refused_setmetadata_keeps_slot.
+Print Assumptions C11_refused_setmetadata_any.
+
+(* non-vacuity: streaming collector, chunk size 1: SetMetadata m, Add, the refused
+   SetMetadata, Add (flushes the first chunk), Resolve — the writer's record and
+   the Resolve result both carry m *)
+Example C11_refused_example :
+  let rb := run_bad deflate_flag (new_coll KStream 1, mkWriter [] [] false) (map inl mb_h1 ++ inr tt :: map inl mb_h2) in
+  exists d1 d2,
+    w_log (snd (fst rb)) = [WFull (OFtdc [meta_doc 0 mb_m; chunk_doc 0 d1])] /\
+    snd rb = [Some BSetMeta; Some (BAdd ROk); None; Some (BAdd ROk);
+              Some (BResolve (Some (OFtdc [meta_doc 0 mb_m; chunk_doc 0 d2])))].
+Proof. exact refused_setmeta_example. Qed.
